@@ -13,6 +13,8 @@ def operands(tier):
     a, b = L("a"), L("b")
     ops = [a, L("ab"), L("("), L(")"), L("(a)"), L("?:a"), L("(?:a)"), L("(?P<n>a)"), L("a(b"), L("(?i:a)"), L("\\(a\\)"), L("a)"),
            O("AnyLetter()"), O("AnyFrom('(', 'a')"), O("AnyFrom(')', 'a')"), O("AnyFrom('a', 'b')"),
+           O("AnyFrom('\\\\', ')')"), O("AnyFrom('(', '\\\\', 'x')"), O("AnyBetween(')', '\\\\')"), O("AnyFrom('[', ']', '(')"), O("AnyButFrom('(', '\\\\')"),
+           ("concat", [O("AnyFrom(')', '\\\\')"), L("b")]), ("capture", a, "n\u00e9"), ("capture", ("concat", [("capture", a, "i"), b]), "gr\u00f6\u00dfe"),
            ("either", [a, b]), ("either", [L("ab"), L("c")]), ("opt", L("ab"), True), ("plus", a, False),
            ("concat", [("either", [a, b]), L("c")]), ("concat", [("opt", L("ab"), True), L("c")]),
            ("concat", [a, O("AnyLetter()")]),
@@ -35,7 +37,7 @@ def operands(tier):
 def wraps(x, depth, tier):
     """nestings of Capture / Group around x"""
     names = [None, "n", "m"]
-    layer = [("capture", x, None), ("capture", x, "n"), ("group", x, False), ("group", x, True)]
+    layer = [("capture", x, None), ("capture", x, "n"), ("group", x, False), ("group", x, True), ("capture", x, "n\u00e9")]
     out = list(layer)
     cur = layer
     for d in range(1, depth):
@@ -66,8 +68,8 @@ def invalid_names():
         yield ("capture", ("group", a, False), nm)
 
 
-def task_prog(e, Lmax):
-    return progs.check_program(e, Lmax, mode="C08")
+def task_prog(e, Lmax, outcomes=None):
+    return progs.check_program(e, Lmax, mode="C08", outcomes=outcomes)
 
 
 def family(tier):
@@ -77,9 +79,9 @@ def family(tier):
         ws = wraps(x, depth, tier)
         if tier == "quick":
             # depth 1 and 2 complete; depth 3 only in the bare context
-            for w in ws[:20]:
+            for w in ws[:25]:
                 ps += list(contexts(w))
-            ps += ws[20:]
+            ps += ws[25:]
         else:
             for w in ws:
                 ps += list(contexts(w))
@@ -93,7 +95,9 @@ def run(tier):
     run.functions = progfam.functions_pre()
     ps = family(tier)
     Lmax = 4 if tier == "quick" else 5
-    run.add(common.run_tasks(__name__, [("task_prog", (e, Lmax)) for e in ps], progress=5000))
+    so = progs.with_seed_outcomes(ps, list(range(6)) if tier == "quick" else list(range(16)))
+    run.add(common.run_tasks(__name__, [("task_prog", (e, Lmax, so.get(i))) for i, e in enumerate(ps)], progress=5000))
+    run.info = {"programs_evaluated_under_several_hash_seeds": len(so)}
     run.triage(REGIONS)
     run.bounds = {"programs": "%d: Capture(name|None)/Group(ci) nestings of depth <= 3 around %d operand kinds (literals containing ( ) ?: ?P<, classes "
                   "containing parentheses, alternations, quantified, look-arounds incl. on the empty pattern, conditionals, backreferences, "
